@@ -44,7 +44,7 @@ pub struct ACfg {
 }
 
 fn filter_marker(e: &Enr) -> bool {
-    e.get("reject").is_none()
+    e.get_decodable::<u8>("reject").is_none()
 }
 fn filter_slash8(e: &Enr) -> bool {
     e.ip4().map(|ip| ip.octets()[0] == 10).unwrap_or(true)
